@@ -2,6 +2,7 @@ package dynamiccache
 
 import (
 	"context"
+	"errors"
 	"fmt"
 	"strings"
 	"sync"
@@ -157,14 +158,7 @@ func (c *Cache) Watch(
 		return err
 	}
 
-	// Remember Owner watching this GVK
-	_, informerExists := c.informerReferences[gvk]
-	if !informerExists {
-		c.informerReferences[gvk] = map[OwnerReference]struct{}{}
-	}
-	c.informerReferences[gvk][ownerRef] = struct{}{}
-
-	if !informerExists {
+	if _, informerExists := c.informerReferences[gvk]; !informerExists {
 		log.Info("adding new watcher",
 			"ownerGV", ownerRef.GroupKind,
 			"forGVK", gvk.String(),
@@ -173,15 +167,36 @@ func (c *Cache) Watch(
 		// Create/Get Informer
 		informer, _, err := c.informerMap.Get(ctx, gvk, uns)
 		if err != nil {
-			return fmt.Errorf("getting informer from InformerMap: %w", err)
+			return errors.Join(
+				fmt.Errorf("getting informer from InformerMap: %w", err),
+				c.releaseInformer(ctx, gvk))
 		}
 
 		// ensure to add all event handlers to the new informer
 		if err := c.cacheSource.handleNewInformer(informer); err != nil {
-			return fmt.Errorf("registering EventHandlers for %v: %w", gvk, err)
+			return errors.Join(
+				fmt.Errorf("registering EventHandlers for %v: %w", gvk, err),
+				c.releaseInformer(ctx, gvk))
 		}
+
+		c.informerReferences[gvk] = map[OwnerReference]struct{}{}
 	}
 
+	// Remember Owner watching this GVK.
+	// Only done once the informer runs with all event handlers, so a failed
+	// attempt leaves nothing behind that makes the next Watch call skip the setup.
+	c.informerReferences[gvk][ownerRef] = struct{}{}
+
+	return nil
+}
+
+// Stops an informer that could not be set up completely,
+// so the next Watch call starts over instead of finding
+// an informer that is not synced or lacks event handlers.
+func (c *Cache) releaseInformer(ctx context.Context, gvk schema.GroupVersionKind) error {
+	if err := c.informerMap.Delete(ctx, gvk); err != nil {
+		return fmt.Errorf("releasing informer for %v: %w", gvk, err)
+	}
 	return nil
 }
 
